@@ -33,7 +33,8 @@ type c18Job struct {
 }
 
 type c18Graph struct {
-	Jobs []c18Job
+	Jobs  []c18Job
+	Cover string // element of a stated finite universe this graph is, or ""
 }
 
 var c18Names = []string{"a", "b", "c", "d", "e", "f", "g", "h"}
@@ -48,7 +49,45 @@ func c18Case(c *Chooser, s string) string {
 	return s
 }
 
+// genC18Small draws uniformly from ALL labelled digraphs over n <= 4 job ids (every edge set,
+// self loops included): the small end of the property's quantifier is covered systematically
+// rather than by the shapes below; the definition order and the order of needs entries vary.
+func genC18Small(c *Chooser) *c18Graph {
+	n := []int{1, 2, 3, 3, 4, 4, 4, 4}[c.Int("world.smalln", 8)]
+	mask := c.Int("world.edgemask", 1<<(n*n))
+	g := &c18Graph{Cover: fmt.Sprintf("digraphs%d:%x", n, mask)}
+	order := make([]int, n)
+	for i := range order {
+		order[i] = i
+	}
+	if c.Bool("world.smallshuffle") {
+		for i := n - 1; i > 0; i-- {
+			j := i - c.Int("world.deforder", i+1)
+			order[i], order[j] = order[j], order[i]
+		}
+	}
+	rev := c.Bool("world.smallrev")
+	for _, v := range order {
+		job := c18Job{ID: c18Case(c, c18Names[v])}
+		for w := 0; w < n; w++ {
+			if mask&(1<<(v*n+w)) != 0 {
+				job.Needs = append(job.Needs, c18Case(c, c18Names[w]))
+			}
+		}
+		if rev {
+			for i, j := 0, len(job.Needs)-1; i < j; i, j = i+1, j-1 {
+				job.Needs[i], job.Needs[j] = job.Needs[j], job.Needs[i]
+			}
+		}
+		g.Jobs = append(g.Jobs, job)
+	}
+	return g
+}
+
 func genC18(c *Chooser) *c18Graph {
+	if c.Weighted("world.small", 1, 4) {
+		return genC18Small(c)
+	}
 	// size biased to <= 5
 	n := 1 + c.Int("world.njobs", 5)
 	if c.Weighted("world.big", 1, 5) {
@@ -411,6 +450,9 @@ func (c18) Eval(c *Chooser, env *Env) *Outcome {
 	}
 	res := RunLint(w, c, RunOpts{KeepTrace: env.KeepTrace})
 	o := &Outcome{World: w}
+	if g.Cover != "" {
+		o.Cover = []string{g.Cover}
+	}
 	o.addRun(res.K)
 	multi := res.SitesMulti
 	o.Nontrivial = len(g.Jobs) >= 2 && multi > 0
